@@ -723,6 +723,25 @@ Section CallFacts.
     - exact Hx.
     - exact Ex.
   Qed.
+
+  (* on every surface and for both shapes the attempt's timeout is what bounds connecting AND reading: the first attempt
+     is bounded by the timeout exactly, later attempts never by more, and no attempt goes out unbounded *)
+  Lemma deadline_on_every_surface : forall s sh r T rep script,
+    (exists h x, hd_error (wire s sh (run jitter r (Some T) (rep :: script))) = Some h /\
+                 read_deadline h = Some x /\ connect_deadline h = Some x /\ x == T) /\
+    (forall p, r = Some p -> 0 <= r_initial p -> 0 <= r_maximum p -> 0 <= r_multiplier p ->
+       Forall (fun h => exists x, read_deadline h = Some x /\ connect_deadline h = Some x /\ x <= T)
+              (wire s sh (run jitter r (Some T) (rep :: script)))).
+  Proof.
+    intros s sh r T rep script. destruct (call_deadline r T rep script) as [[x [Hx Ex]] HB]. split.
+    - unfold wire. destruct (t_timeouts (run jitter r (Some T) (rep :: script))) as [|o l]; [discriminate|].
+      cbn [hd_error] in Hx. injection Hx as Ho. subst o.
+      exists (hand_down s sh (Some x)), x. cbn [map hd_error hand_down read_deadline connect_deadline]. auto.
+    - intros p Ep Hi Hm Hk. specialize (HB p Ep Hi Hm Hk). unfold wire.
+      apply Forall_forall. intros h Hin. apply in_map_iff in Hin. destruct Hin as [o [Eh Ho]].
+      rewrite Forall_forall in HB. destruct (HB o Ho) as [y [Ey Ly]].
+      subst o h. exists y. cbn [hand_down read_deadline connect_deadline]. auto.
+  Qed.
 End CallFacts.
 
 (* ------------------------------------------------------------------ non-vacuity *)
@@ -771,3 +790,11 @@ Proof.
   repeat split; try reflexivity; try discriminate.
   repeat constructor; vm_compute; tauto.
 Qed.
+
+Example ex_server_stream_over_rest :
+  list_eqb handed_eqb
+    (wire SRest ServerStreaming
+          (run jitter_max (Some ex_params) (Some (15 # 2)) [Err "UNAVAILABLE"; Err "UNAVAILABLE"; Ok]))
+    [Scalar (Some (15 # 2)); Scalar (Some (7 # 1)); Scalar (Some (127 # 20))] = true
+  /\ map read_deadline [Pair (Some (15 # 2)) None] = [None].
+Proof. split; [vm_compute; reflexivity|reflexivity]. Qed.
